@@ -16,7 +16,8 @@ EXPLANATION = (
     "SocketBroken, and for any request error once shutdown was requested, otherwise the error; it resets the connection "
     "state on every path (the daemon can start again); with no thread it returns Ok; (H4) serve raises every worker's exit "
     "event on every path after wait and maps Disconnected / PartialMessage to Ok; (H5) dropping the handler signals every "
-    "worker's exit event and then joins every worker; dropping the daemon shuts the connection down.")
+    "worker's exit event and then joins every worker; dropping the daemon shuts the connection down."
+    ' Also: (H3) every request error is returned only after the shutdown flag was seen false, Error::SocketBroken is constructed only in the errno conversion and the sticky-error accessors, the state reset is recognised as the store of None (helper or inline); (H5) no iteration of the join loop can skip the join; (H6) C08/S8.')
 NOT_DECIDED = "Bounded time, the races themselves, what the peer observes on the wire."
 
 ORDER = {"Relaxed": 0, "Release": 1, "Acquire": 1, "AcqRel": 2, "SeqCst": 3}
